@@ -144,6 +144,30 @@ CLAIMED = {
             "by witnesses and recorded as findings; non-default domain boundaries not modelled.",
             "Lean 4 proof (induction on dimension, shell arithmetic, state-machine invariants) + differential correspondence",
             "DESIGN.md §4 C14"),
+    "C15": ("Lean 4 model of the path assembly (fixed dates, jump times, the epsilon-insertion while-loop with its termination measure, "
+            "fine/coarse stacking). Theorems for every time grid, count/jump sequence and epsilon: paths start at 0, times strictly increase "
+            "and end at the maturity, arrays have equal length; the specification (and the direct jump-time simulator, and the diffusion "
+            "component of every simulator) carries running sums with disjoint variates on disjoint intervals; the insertion loop equals "
+            "the gap-by-gap specification, terminates (measure = sum of ceil(d/eps)-1), keeps every original point, inserts points that repeat "
+            "the preceding value, yields steps in (0, eps] and keeps fine and coarse aligned. For the code as it is the running-sum and "
+            "step-cap statements are proved where they hold (one product date; last gap <= eps) and refuted by concrete witnesses otherwise "
+            "(recorded findings, not fixed: six sites in four files). Correspondence: both build_finer_grid closures on dyadic arrays "
+            "(exact); direct, CTMC, coupled and copula simulators with all variates prescribed from the harness, 1-6 product dates.",
+            "Partial for the code (findings #17/#18 and three crash findings for several product dates); numpy sort/insert/cumsum trusted.",
+            "Lean 4 proof (loop = specification, termination measure, list induction) + differential correspondence",
+            "DESIGN.md §4 C15"),
+    "C16": ("Lean 4 model of the Euler recursion over driver increments (single process and the stacked fine/coarse pair) and of the "
+            "piecewise simple compounding of the initial curve. Theorems for every driver path, initial value and step count: the scheme "
+            "satisfies X_{i+1} = X_i + (b + a*mu) dt_i + a (dW_i + dL_i); with constant a it equals x0 + a*Y_T, with a = diag(x) it equals "
+            "x0 * prod(1 + dY_i); each component of the coupled scheme is the single-process scheme on its own part of the coupled path; "
+            "df(0) = 1, 0 < df <= 1, df is non-increasing for non-negative rates, adjacent branches agree at every tenor and are affine in "
+            "between; witness for the pre-fix curve. Correspondence: real MarkovChainSDE / CouplingSDE (1-d and copula drivers, all "
+            "offered coefficient functions) vs recomputation from the captured driver path and vs the Lean driver; df on a mesh through "
+            "every tenor for both rate models.",
+            "The coupled driver path is an input (its law is C03); numpy broadcasting of the coefficient compared; three recorded findings "
+            "(DiagX on stacked / multi-dimensional state, forward sigma(t) past the first tenor).",
+            "Lean 4 proof (induction on the path, piecewise-affine curve) + differential correspondence",
+            "DESIGN.md §4 C16"),
     "C17": ("Lean 4 model of payoff.py, underlying.py and Product.update / underlying_value / __call__ as a state machine (barrier flag, "
             "representation binding) over Q with an abstract exp/log pair. Theorems for all strikes, barriers, paths, grids and histories: "
             "call - put = forward (per component), call spread and butterfly equal their call combinations, call spread >= 0, digital "
